@@ -1,6 +1,7 @@
 import S3V.Thm.DtoRange
 import S3V.Thm.DtoCopySource
 import S3V.Thm.DtoTimestamp
+import S3V.Thm.DtoTimestampEpoch
 /-!
 # C14 — timestamps, ranges, copy sources, content types keep their meaning through text
 (property theorems only)
@@ -216,24 +217,38 @@ theorem C14_ts_instant_preserved (Y m d H Mi S : Nat) (ms : Option Nat) (neg : B
     simpa only [hr] using this
   · exact httpdate_roundtrip ⟨rfc3339Instant Y m d H Mi S neg oh om, fracNanosOf ms, offsetSeconds neg oh om⟩ h1 h2
 
-/-- EpochSeconds, whole seconds — the full statement: for every instant of the years 1 … 9999 that is
-    a whole number of seconds, `format` writes a text that `parse` reads back as that instant.
-    FALSE of the current code for instants before 1970 (`Findings/C14.lean`, finding F-dto-4). -/
-def C14_ts_epoch_whole_roundtrip_full : Prop :=
-  ∀ (unix off : Int), -62135596800 ≤ unix → unix ≤ 253402300799 →
-    ∃ txt, formatEpochWhole ⟨unix, 0, off⟩ = some txt ∧ parseEpochSeconds txt = some ⟨unix, 0, 0⟩
+/-- *formatting then parsing is the identity* — EpochSeconds, in full (after repair 4f99c94): for
+    every instant of the years 1 … 9999 at NANOSECOND resolution, before and after 1970, whatever
+    offset the timestamp carries, `format` writes a text that `parse` reads back as exactly that
+    instant (in UTC). Closes findings F-dto-4 (`-1`, `-0.5` were refused) and F-dto-5 (the `f64`
+    text of some millisecond instants denoted another instant and was refused). -/
+theorem C14_ts_epoch_roundtrip (t : Ts) (h1 : -62135596800 ≤ t.unix) (h2 : t.unix ≤ 253402300799)
+    (hn : t.nanos < 1000000000) :
+    ∃ txt, formatEpochSeconds t = some txt ∧ parseEpochSeconds txt = some ⟨t.unix, t.nanos, 0⟩ :=
+  epoch_roundtrip t h1 h2 hn
 
-/-- … the part that holds: excluded region `unix < 0` (instants before 1970), i.e. for every
-    whole-second instant from 1970 to the end of year 9999 `format` writes the decimal integer and
-    `parse` gives the instant back.
-    (An instant with a fraction is written through `f64` arithmetic and `Display`, which the
-    proof-side model does not describe: correspondence only, through the driver's exact float
-    model; see also finding F-dto-5.) -/
-theorem C14_ts_epoch_whole_roundtrip_partial (unix off : Int) (h0 : ¬ unix < 0) (h1 : unix ≤ 253402300799) :
-    ∃ txt, formatEpochWhole ⟨unix, 0, off⟩ = some txt ∧ parseEpochSeconds txt = some ⟨unix, 0, 0⟩ :=
-  epoch_whole_roundtrip unix off (by omega) h1
+/-- *encoded to text that denotes the same value* — EpochSeconds: the text `format` writes is a
+    decimal number `[-] 1*DIGIT [ "." 1*DIGIT ]` (`readDecimal`: numerator `num`, `k` fraction digits,
+    i.e. the rational `num / 10^k`) that is exactly `unix + nanos / 10^9` seconds, sign included;
+    stated with integers: `num · 10^9 = (unix · 10^9 + nanos) · 10^k`. No bound on the instant. -/
+theorem C14_ts_epoch_format_denotes (t : Ts) :
+    ∃ txt num k, formatEpochSeconds t = some txt ∧ readDecimal txt = some (num, k) ∧
+      num * 1000000000 = (t.unix * 1000000000 + (t.nanos : Int)) * ((10 ^ k : Nat) : Int) := by
+  obtain ⟨txt, hf, num, k, hr, he⟩ := epoch_format_denotes t
+  exact ⟨txt, num, k, hf, hr, he⟩
 
-/-- EpochSeconds, parsing: decimal seconds with a millisecond fraction are decoded to the value they denote -/
+/-- *decoded to the value they denote* — EpochSeconds, parsing: every text of the grammar
+    `[-] 1*DIGIT [ "." 1*9DIGIT ]` (`EpochText`: any number of leading zeros, one to nine fraction
+    digits with or without trailing zeros, optional minus sign) that denotes `n` nanoseconds since the
+    epoch, `n` an instant of the years 1 … 9999, is parsed to exactly that instant in UTC:
+    `unix · 10^9 + nanos = n` with `0 ≤ nanos < 10^9` -/
+theorem C14_ts_epoch_parse_denotes (txt : Bytes) (n : Int) (h : EpochText txt n)
+    (h1 : -62135596800000000000 ≤ n) (h2 : n ≤ 253402300799999999999) :
+    ∃ t, parseEpochSeconds txt = some t ∧ t.off = 0 ∧ t.nanos < 1000000000 ∧
+      t.unix * 1000000000 + (t.nanos : Int) = n :=
+  parseEpoch_denotes txt n h (by unfold unixMin; omega) (by unfold unixMax; omega)
+
+/-- … the instance the AWS protocol tests use: decimal seconds with a millisecond fraction -/
 theorem C14_ts_epoch_parse_ms (secs ms : Nat) (h1 : secs ≤ 253402300799) (h2 : ms < 1000) :
     parseEpochSeconds (fmtDec secs ++ 46 :: pad3 ms) = some ⟨(secs : Int), ms * 1000000, 0⟩ :=
   parseEpoch_ms secs ms h1 h2
@@ -244,6 +259,24 @@ example : rfc3339Instant 2020 1 1 8 0 0 false 8 0 = 1577836800 := by decide
 example : rfc3339Text 2020 1 1 8 0 0 none false 8 0 =
     [50, 48, 50, 48, 45, 48, 49, 45, 48, 49, 84, 48, 56, 58, 48, 48, 58, 48, 48, 43, 48, 56, 58, 48, 48] := by decide
 example : (-62135596800 : Int) ≤ 1577836800 ∧ (1577836800 : Int) ≤ 253402300799 := by decide
-example : ¬ (1515531081 : Int) < 0 ∧ (1515531081 : Int) ≤ 253402300799 := by decide
+
+/-! non-vacuity, EpochSeconds: half a second before 1970 is written `-0.5`; the first instant of year 1
+    is written `-62135596800`; 1970-01-01T00:00:01.118Z (the old `f64` text was `1.1179999999999999`)
+    is written `1.118` whatever offset it carries; each is read back; `-0.5` denotes −5/10 -/
+example : (-62135596800 : Int) ≤ -1 ∧ (-1 : Int) ≤ 253402300799 ∧ 500000000 < 1000000000 := by decide
+example : formatEpochSeconds ⟨-1, 500000000, 0⟩ = some [45, 48, 46, 53] := by decide +kernel
+example : parseEpochSeconds [45, 48, 46, 53] = some ⟨-1, 500000000, 0⟩ := by decide +kernel
+example : formatEpochSeconds ⟨-62135596800, 0, 0⟩ = some [45, 54, 50, 49, 51, 53, 53, 57, 54, 56, 48, 48] := by
+  decide +kernel
+example : parseEpochSeconds [45, 54, 50, 49, 51, 53, 53, 57, 54, 56, 48, 48] = some ⟨-62135596800, 0, 0⟩ := by
+  decide +kernel
+example : formatEpochSeconds ⟨1, 118000000, 28800⟩ = some [49, 46, 49, 49, 56] := by decide +kernel
+example : parseEpochSeconds [49, 46, 49, 49, 56] = some ⟨1, 118000000, 0⟩ := by decide +kernel
+example : readDecimal [45, 48, 46, 53] = some (-5, 1) := by decide
+example : (-5 : Int) * 1000000000 = (-1 * 1000000000 + ((500000000 : Nat) : Int)) * ((10 ^ 1 : Nat) : Int) := by decide
+example : EpochText [45, 48, 46, 53] (-500000000) :=
+  .frac (neg := true) (ip := [48]) (fp := [53]) (a := 0) (b := 5) ⟨by decide, by decide⟩ ⟨by decide, by decide⟩ (by decide)
+example : (-62135596800000000000 : Int) ≤ -500000000 ∧ (-500000000 : Int) ≤ 253402300799999999999 := by decide
+example : (1515531081 : Nat) ≤ 253402300799 ∧ (123 : Nat) < 1000 := by decide
 
 end S3V.C14
